@@ -308,7 +308,25 @@ def plan_C03(prop, tier, seed, t0):
                     extra_cov_fn=lambda st, groups: {"programs": groups, "disagreements_checked": st.get("extractions", 0) + st.get("cli", 0)})
 
 
-PLANS = {"C01": plan_C01, "C03": plan_C03, "C12": plan_C12, "C11": plan_C11, "C08": plan_C08, "C02": plan_C02, "C04": plan_C04, "C10": plan_C10, "C15": plan_C15}
+def plan_C09(prop, tier, seed, t0):
+    q = tier == "quick"
+    mcs = [dict(name="backends", module="MC_Backends.tla", cfg="MC_Backends_q.cfg" if q else "MC_Backends_t.cfg", timeout=1500 if q else 6000)]
+    T = dict(module="Trace_Backends.tla", cfg="Trace_Backends.cfg")
+    traces = [
+        dict(name="hist", engine="backends", args=["--histories", 200 if q else 3000, "--len", 60, "--maxlive", 7], **T),
+        dict(name="long", engine="backends", args=["--histories", 32 if q else 400, "--len", 300, "--maxlive", 10], **T),
+    ]
+    return run_plan(prop, tier, seed, t0, mcs, traces, "model_checking", COMMON_ASSUME + [
+                        "vertex identity across backends is a tag stored in the row coordinate; inputs/outputs are taken off the lists before a listed vertex is deleted (valid usage)"],
+                    "MC: every operation sequence up to the bound on the two transcribed storage machines (hole stack / fresh counter, swap_remove "
+                    "adjacency vectors, pack renumbering) and the abstract graph: VecInv, HashInv, Refines (equality in tag space), Counts, "
+                    "SameOutcome in every state; TRACE: one execution = one seeded random history of 30-300 public GraphLike operations "
+                    "(add/remove/named insertion incl. beyond range, raw and smart edges, data edits, inputs/outputs, scalar and scalar factors, "
+                    "pack, clone, sub-graph, append) applied to both real backends; after EVERY operation the full observable of both is "
+                    "validated by TLC: internal consistency, equality with the abstract model in tag space; non-trivial = operations that changed the graph")
+
+
+PLANS = {"C01": plan_C01, "C09": plan_C09, "C03": plan_C03, "C12": plan_C12, "C11": plan_C11, "C08": plan_C08, "C02": plan_C02, "C04": plan_C04, "C10": plan_C10, "C15": plan_C15}
 
 TECH = "explicit TLA+ specification; TLC exhaustive model checking of the spec + TLC trace validation of recorded executions of the real code"
 META = {
@@ -367,8 +385,17 @@ META["C03"] = dict(level="translation_validation", engine="extract", design_ref=
          "time-outs are violations.",
     note="the extraction algorithm itself is not model-checked as a state machine in this round (no Extract.tla): the claim is per-program validation, "
          "not exhaustive exploration of the extractor; CLI inputs exclude the pyzx-specific `pp` gate, which the QASM front end does not declare")
+META["C09"] = dict(level="model_checking", engine="backends", design_ref="DESIGN.md section 3 C09", technique=TECH,
+    text="spec/Backends.tla models the vector store (Option slots, free-name stack, swap_remove adjacency lists, cached numv/nume, pack "
+         "renumbering) and the hash store (maps of maps, fresh counter) as two concrete machines next to the abstract graph; TLC exhausts "
+         "all operation sequences up to the bound for the representation invariants and refinement; long random histories of the real "
+         "backends are validated operation by operation (full observable of both after every call) against the abstract model in tag space, "
+         "including compaction, clone independence, sub-graph and append.",
+    note="enumeration order and edge orientation are not observable (sorted before logging); allocator names are only checked as L1 drift")
 NOT_APPLICABLE = {}
 ENGINES = [
+    {"name": "backends", "path": "spec/Backends.tla mc/MC_Backends.tla mc/Trace_Backends.tla harness/src/eng_backends.rs",
+     "serves_properties": ["C09"], "kind_free_text": "TLC exhaustive op sequences on two storage machines + trace validation of real histories"},
     {"name": "eqcheck", "path": "spec/Equality.tla mc/MC_Equal.tla mc/Trace_Eq.tla harness/src/eng_circ.rs",
      "serves_properties": ["C12"], "kind_free_text": "TLC exhaustive checker algorithm + trace validation of answers"},
     {"name": "extract", "path": "spec/Circuit.tla mc/Trace_Extract.tla harness/src/eng_circ.rs",
